@@ -85,11 +85,12 @@ func H11a() {
 	fault := vParam("fault") == 1
 	chunk := vParam("chunk")
 	k := vConcretize(vInt(0, len(s.data)-1))
+	we := vParam("we") == 1 // the error arrives together with the last bytes
 	mk := func() *vReader {
 		if fault {
-			return &vReader{data: s.data, chunk: chunk, failAt: k}
+			return &vReader{data: s.data, chunk: chunk, failAt: k, withErr: we}
 		}
-		return &vReader{data: s.data[:k], chunk: chunk, failAt: -1}
+		return &vReader{data: s.data[:k], chunk: chunk, failAt: -1, withErr: we}
 	}
 	f, err := Decode(mk())
 	vAssert(err != nil, "C11.decode.error-on-cut")
